@@ -14,6 +14,16 @@ def sq(e):
     return sx.render(e).replace(' ', '')
 
 
+def table_var(pp):
+    """role: the define table = second component of the loop function's final Ok((out, table))"""
+    tail = pp.loop_fn['body']['stmts'][-1]
+    e = tail.get('e', {})
+    if sx.is_call(e, 'Ok') and e['args'] and e['args'][0].get('k') == 'tuple' and len(e['args'][0]['e']) == 2 \
+            and sx.is_path(e['args'][0]['e'][1]):
+        return e['args'][0]['e'][1]['p']
+    return 'defines'
+
+
 def stmts_with_scope(block, chain=()):
     """Yield (chain, stmts, i, stmt) for every statement at any depth; chain = tuple of (stmts, i) of the
     enclosing statements, outermost first."""
@@ -86,6 +96,104 @@ def arm_of_line(pp, line):
         if a.line <= line <= a.end:
             return a
     return None
+
+
+def _len_lets(m, field='self.text.len()'):
+    """top-level `let v = self.text.len();` statements with their statement index"""
+    out = {}
+    for i, st in enumerate(m['body']['stmts']):
+        if st['k'] == 'let' and 'init' in st and st['pat'].get('k') == 'ident' and sq(st['init']) == field:
+            out[st['pat']['n']] = i
+    return out
+
+
+def _append_index(m, what):
+    for i, st in enumerate(m['body']['stmts']):
+        if st['k'] == 'expr' and st['e'].get('k') == 'mcall' and st['e']['m'] == 'push_str' and sq(st['e']['recv']) == 'self.text' \
+                and sq(st['e']['args'][0]) in what:
+            return i
+    return None
+
+
+def judge_push(pm):
+    pn = [sx.pat_idents(p_['pat'])[0] for p_ in pm['sig']['params'] if p_.get('k') == 'typed']
+    t = pn[0] if pn else 's'
+    lens = _len_lets(pm)
+    ai = _append_index(pm, (t, '&' + t))
+    if ai is None:
+        return 'undecided', 'the append of the text (`self.text.push_str(%s)`) was not found as a plain statement' % t, t
+    before = {v for v, i in lens.items() if i < ai}
+    after = {v for v, i in lens.items() if i > ai}
+    keys = [n for n in sx.walk(pm['body']) if sx.is_call(n) and n['f']['p'] == 'Range::new' and len(n['args']) == 2]
+    inserts = [n for n in sx.walk(pm['body']) if n.get('k') == 'mcall' and n['m'] == 'insert' and sq(n['recv']) == 'self.origins']
+    if not inserts:
+        return 'wrong', 'no insertion into the origin map', t
+    if len(inserts) != 1 or len(keys) != 1:
+        return 'undecided', '%d insertions / %d Range::new calls' % (len(inserts), len(keys)), t
+    A, B = sq(keys[0]['args'][0]), sq(keys[0]['args'][1])
+    key_line = keys[0].get('l', 0)
+    ap_line = pm['body']['stmts'][ai].get('l', 0)
+    okA = A in before
+    okB = any(B in ('(%s+%s.len())' % (a_, t), '(%s.len()+%s)' % (t, a_)) for a_ in before) or B in after or (B == 'self.text.len()' and key_line > ap_line)
+    # the inserted key is that range
+    karg = inserts[0]['args'][0]
+    same = karg is keys[0]
+    if sx.is_path(karg):
+        kst = [st_ for st_ in pm['body']['stmts'] if st_['k'] == 'let' and karg['p'] in sx.pat_idents(st_['pat'])]
+        same = bool(kst) and kst[-1].get('init') is keys[0]
+    if okA and okB and same:
+        return 'ok', 'key = Range::new(%s, %s)' % (A, B), t
+    if A in after or (A == 'self.text.len()' and key_line > ap_line):
+        return 'wrong', 'the key begins at the text length AFTER the append (%s)' % A, t
+    if B == A:
+        return 'wrong', 'the key is the empty range (%s, %s)' % (A, B), t
+    if okA and B in before:
+        return 'wrong', 'the key ends at a length taken before the append (%s)' % B, t
+    return 'undecided', 'key Range::new(%s, %s) is not in a recognised form' % (A, B), t
+
+
+def judge_merge(mm):
+    opn = [sx.pat_idents(p_['pat'])[0] for p_ in mm['sig']['params'] if p_.get('k') == 'typed']
+    oth = opn[0] if opn else 'other'
+    lens = _len_lets(mm)
+    # the appended text: other.text or a local destructured from other
+    text_names = {'&%s.text' % oth}
+    origins_names = {'%s.origins' % oth, '%s.origins.into_iter()' % oth}
+    for st in mm['body']['stmts']:
+        if st['k'] == 'let' and 'init' in st and st['pat'].get('k') == 'struct' and sq(st['init']) == oth:
+            for f in st['pat']['fields']:
+                nm = sx.pat_idents(f['p'])
+                if f['n'] == 'text' and nm:
+                    text_names |= {'&' + nm[0], nm[0] + '.as_str()'}
+                if f['n'] == 'origins' and nm:
+                    origins_names |= {nm[0], nm[0] + '.into_iter()'}
+    ai = _append_index(mm, text_names)
+    if ai is None:
+        return 'undecided', 'the append of the included text was not found as a plain statement'
+    before = {v for v, i in lens.items() if i < ai}
+    after = {v for v, i in lens.items() if i > ai}
+    fors = [n for n in sx.walk(mm['body']) if n.get('k') == 'for']
+    if len(fors) != 1 or sq(fors[0]['e']) not in origins_names:
+        return 'undecided', 'loop over the included origin map not recognised'
+    ids_ = [x for x in sx.pat_idents(fors[0]['pat']) if x]
+    if len(ids_) != 2:
+        return 'undecided', 'loop pattern'
+    kv, ov = ids_
+    offs = [n for n in sx.walk(fors[0]['body']) if n.get('k') == 'mcall' and n['m'] == 'offset' and len(n['args']) == 1]
+    ins = [n for n in sx.walk(fors[0]['body']) if n.get('k') == 'mcall' and n['m'] == 'insert' and sq(n['recv']) == 'self.origins']
+    if not ins:
+        return 'wrong', 'the re-based entries are not inserted'
+    shifted = {sq(n['recv']): sq(n['args'][0]) for n in offs}
+    if any(v in after for v in shifted.values()):
+        return 'wrong', 'entries are shifted by the text length AFTER the append'
+    if kv in shifted and ('%s.range' % ov) in shifted and all(v in before for v in shifted.values()) and len(ins) == 1 \
+            and [sq(x) for x in ins[0]['args']] == [kv, ov]:
+        return 'ok', 'keys and origin ranges shifted by %s' % sorted(set(shifted.values()))
+    if (kv in shifted) != (('%s.range' % ov) in shifted):
+        return 'wrong', 'only one of key / Origin.range is shifted (%s)' % sorted(shifted)
+    if not shifted:
+        return 'wrong', 'the included entries are not shifted at all'
+    return 'undecided', 'shift pattern %s not recognised' % shifted
 
 
 def x1_x3(ctx):
@@ -251,27 +359,24 @@ def x1_x3(ctx):
                         '%s::%s can modify the output and is %s: code outside the preprocessor could write text without origin' % (out_ty, name, m['vis']))
         if sorted(writers) != ['merge', 'new', 'push']:
             r3.fail('%s:%s:writers' % (CRATE, out_ty), pp.where(st['l']), 'writers of %s are %s; expected new/push/merge' % (out_ty, sorted(writers)))
-        # push: key range = [len_before, len_before + s.len())
+        # push: key range = [len_before, len_before + s.len())   — tri-state (OK / WRONG / UNDECIDED)
         pm = writers.get('push')
         if pm:
-            body = [sq(s) for s in pm['body']['stmts']]
-            r3.inst('push-keys-tile')
-            need = ['letbase=self.text.len();', 'self.text.push_str(s);']
-            idx = [body.index(x) if x in body else -1 for x in need]
-            rng = [b for b in body if b.startswith('letrange=Range::new(')]
-            ok = idx[0] >= 0 and idx[1] > idx[0] and rng == ['letrange=Range::new(base,(base+s.len()));'] \
-                and any(b == 'self.origins.insert(range,origin);' for b in body)
-            if not ok:
+            verdict, why, tparam = judge_push(pm)
+            r3.inst('push-keys-tile', {'verdict': verdict, 'why': why})
+            if verdict == 'wrong':
                 r3.fail('%s:%s:push-key' % (CRATE, out_ty), pp.where(pm['l']),
-                        'push must key the new segment by [text length before, text length before + s.len()) and insert it once; found %s' % body)
+                        'push must key the new segment by [text length before the append, text length after it) and insert it once: %s' % why)
+            elif verdict == 'undecided':
+                r3.undecided('%s:%s:push-key' % (CRATE, out_ty), pp.where(pm['l']), 'push: %s' % why)
             # X2: empty strings must not create a key
-            early = any(s_['k'] == 'expr' and s_['e'].get('k') == 'if' and sq(s_['e']['c']) in ('s.is_empty()', '(s.len()==0)')
+            stm = pm['body']['stmts']
+            early = any(s_['k'] == 'expr' and s_['e'].get('k') == 'if' and sq(s_['e']['c']) in ('%s.is_empty()' % tparam, '(%s.len()==0)' % tparam)
                         and any(n.get('k') == 'return' for n in sx.walk(s_['e']['t']))
-                        for s_ in pm['body']['stmts'][:idx[0] if idx[0] >= 0 else 0] + pm['body']['stmts'][:1])
+                        for s_ in stm[:2])
             r2.inst('push-empty-guard', {'push_returns_early_on_empty': early})
             if not early:
                 # every call site's text must be provably non-empty
-                nt = ctx.types
                 for chain, stmts, i, call in sites:
                     text = sx.strip_ref(call['args'][0])
                     arm = arm_of_line(pp, call.get('l'))
@@ -290,17 +395,13 @@ def x1_x3(ctx):
                                 {'arm': akey, 'text': sx.render(call['args'][0])})
         mm = writers.get('merge')
         if mm:
-            body = [sq(s) for s in mm['body']['stmts']]
-            r3.inst('merge-rebases')
-            fors = [n for n in sx.walk(mm['body']) if n.get('k') == 'for']
-            ok = 'letbase=self.text.len();' in body and 'self.text.push_str(&other.text);' in body and \
-                body.index('letbase=self.text.len();') < body.index('self.text.push_str(&other.text);') and len(fors) == 1
-            if ok:
-                fb = [sq(s) for s in fors[0]['body']['stmts']]
-                ok = sorted(fb) == sorted(['range.offset(base);', 'origin.range.offset(base);', 'self.origins.insert(range,origin);'])
-            if not ok:
+            verdict, why = judge_merge(mm)
+            r3.inst('merge-rebases', {'verdict': verdict, 'why': why})
+            if verdict == 'wrong':
                 r3.fail('%s:%s:merge' % (CRATE, out_ty), pp.where(mm['l']),
-                        'merge must shift every key and every Origin.range of the included map by the text length before appending')
+                        'merge must shift every key and every Origin.range of the included map by the text length before appending: %s' % why)
+            elif verdict == 'undecided':
+                r3.undecided('%s:%s:merge' % (CRATE, out_ty), pp.where(mm['l']), 'merge: %s' % why)
     return [r1, r2, r3]
 
 
@@ -372,7 +473,7 @@ def x5_x7(ctx):
         b = [x for x in cond if x.kind == 'IfndefDirective'][0]
 
         def norm_body(arm, negate_first):
-            stmts = arm.body['stmts']
+            stmts = sx.alpha(arm.body, keep=('defines', 'skip_nodes', 'skip', 's', 'path'))['stmts']
             out = []
             first = True
             for st in stmts:
@@ -400,7 +501,7 @@ def x5_x7(ctx):
     # ---- X7
     r7.exactly('skip_guard', 1 if pp.guard_idx is not None else 0, 1)
     if pp.guard_idx is not None:
-        tbl = 'defines'
+        tbl = table_var(pp)
 
         def effects(st):
             out = []
